@@ -16,6 +16,7 @@ TCase == /\ Ev("codec.case") /\ UNCHANGED pc
          /\ LET d == Decode(E.registered, E.len_class, E.body_class, E.n, E.avail) IN
             bad' = bad
               \cup (IF E.panicked THEN {<<"decoder panicked", l>>} ELSE {})
+              \cup (IF "nilmsg" \in DOMAIN E /\ E.nilmsg THEN {<<"decoder returned neither a registered message nor an error (nil message)", l>>} ELSE {})
               \cup (IF E.ok # d.ok THEN {<<"decode outcome differs (malformed frame accepted or valid frame refused)", l>>} ELSE {})
               \cup (IF E.consumed # d.consumed THEN {<<"decoder read past the frame or stopped short", l>>} ELSE {})
               \cup (IF E.max_read > AllocBound THEN {<<"decoder asked for more than the bounded length at once", l>>} ELSE {})
